@@ -213,6 +213,7 @@ func c13Body(r *vlib.Run) int {
 				time.Sleep(25 * time.Millisecond)
 			}
 		}
+		hangup := false // the next sessions hang up right after sending their command
 		open := func(mode string) {
 			id := nextID
 			nextID++
@@ -247,6 +248,14 @@ func c13Body(r *vlib.Run) int {
 			}
 			r.SetAdd("session_options", opts)
 			io.WriteString(in, encodeCommand(cmd))
+			if hangup {
+				// the session is gone by the time (or at the very moment) its read
+				// asks for a slot
+				client.Close()
+				r.Count("sessions_hanging_up_right_after_their_command", 1)
+				hist = append(hist, fmt.Sprintf("open+hangup(%s#%d as %s)", mode, id, userName))
+				return
+			}
 			sessions = append(sessions, &c13Session{id: id, mode: mode, file: f, client: client, out: out, in: in, live: true})
 			hist = append(hist, fmt.Sprintf("open(%s#%d as %s)", mode, id, userName))
 		}
@@ -275,7 +284,13 @@ func c13Body(r *vlib.Run) int {
 		steps := 8 + hrng.Intn(8)
 		sawWaiting := false
 		for st := 0; st < steps && good; st++ {
-			switch op := hrng.Intn(10); {
+			switch op := hrng.Intn(11); {
+			case op == 10: // burst of sessions which hang up at once
+				hangup = true
+				for i, k := 0, 4+hrng.Intn(8); i < k; i++ {
+					open([]string{"cat", "grep", "tail"}[hrng.Intn(3)])
+				}
+				hangup = false
 			case op < 3:
 				open([]string{"cat", "cat", "grep"}[hrng.Intn(3)])
 			case op == 3:
